@@ -349,6 +349,7 @@ def check_pack(ctx, t, path, d, rel, opts_list, calls):
         ctx.expect(trail.name == base and sorted(t.norm(p) for p in trail.simfile_dir_paths) == got_dirs,
                    "pack:trailing-separator", name=trail.name, want=base)
     # expectations per member directory
+    reused = {False: SimfilePack(path, filesystem=t.fs), True: SimfilePack(path, filesystem=t.fs, ignore_duplicate=True)}
     for ign in (False, True):
         members = {}
         any_dup = False
@@ -360,9 +361,10 @@ def check_pack(ctx, t, path, d, rel, opts_list, calls):
                 any_dup = True
             pref = (sscs or sms)[0]
             members[t.norm(t.join(t.join(path, name), pref))] = (sub, pref, (rel + "/" + name).lstrip("/"))
-        for opts in opts_list:
+        for opts in opts_list[::-1] + opts_list:
             ctx.mon("openpack")
-            routes = [("SimfilePack.simfiles", lambda o=opts: [(sf, None) for sf in SimfilePack(path, filesystem=t.fs, ignore_duplicate=ign).simfiles(**o)])]
+            routes = [("SimfilePack.simfiles", lambda o=opts: [(sf, None) for sf in SimfilePack(path, filesystem=t.fs, ignore_duplicate=ign).simfiles(**o)]),
+                      ("SimfilePack.simfiles(reused object)", lambda o=opts: [(sf, None) for sf in reused[ign].simfiles(**o)])]
             if not ign:
                 routes.append(("openpack", lambda o=opts: list(simfile.openpack(path, filesystem=t.fs, **o))))
             for label, fn in routes:
